@@ -196,6 +196,13 @@ func isIdentity(p []int) bool {
 
 func anyEq(a, b any) bool { return fmt.Sprint(a) == fmt.Sprint(b) }
 
+// sameStep: a key and a path step are the same thing, type included (the string "8080" is not the position 8080)
+func sameStep(a, b any) bool { return fmt.Sprintf("%T:%v", a, a) == fmt.Sprintf("%T:%v", b, b) }
+
+// c16NumberLikeKeys: string keys whose text reads as a number, a boolean or null: they stay strings in path and key
+var c16NumberLikeKeys = []string{"8080", "007", "02134", "0x1F", "1_000", "+5", "-3", "1.5", "1e3", "0o17", "0", "12", "true", "null", "~", ".5", "0b11"}
+
+
 func pathOf(v *ref.V) ([]any, bool) {
 	if v.K != ref.Seq {
 		return nil, false
@@ -208,7 +215,7 @@ func pathOf(v *ref.V) ([]any, bool) {
 		case ref.Str:
 			out[i] = x.S
 		default:
-			out[i] = x.Text()
+			out[i] = fmt.Sprintf("!kind%d:%s", x.K, x.Text())
 		}
 	}
 	return out, true
@@ -221,6 +228,14 @@ func (p c16) Run(w *mon.Worker, idx int) mon.Result {
 	pr.MaxDepth = 2 + r.IntN(3)
 	pr.MaxWidth = 2 + r.IntN(4)
 	pr.Keys = []string{"a", "b", "c", "d", "x", "y"}
+	numberLike := r.IntN(5) == 0
+	if numberLike {
+		// a third of the key vocabulary reads as a number / boolean / null although it is a string
+		pr.Keys = []string{"a", "b", "x"}
+		for k := 0; k < 4; k++ {
+			pr.Keys = append(pr.Keys, c16NumberLikeKeys[r.IntN(len(c16NumberLikeKeys))])
+		}
+	}
 	f := c16Fs[r.IntN(len(c16Fs))]
 	var doc *ref.V
 	for try := 0; try < 20; try++ {
@@ -231,6 +246,9 @@ func (p c16) Run(w *mon.Worker, idx int) mon.Result {
 		doc = nil
 	}
 	res := mon.Result{Tags: []string{"f:" + f.name}}
+	if numberLike {
+		res.Tags = append(res.Tags, "number_like_string_keys")
+	}
 	if doc == nil {
 		res.Verdict, res.Detail = mon.Held, "no suitable document"
 		return res
@@ -505,8 +523,10 @@ func (p c16) Run(w *mon.Worker, idx int) mon.Result {
 			k := keys.A[i].A[0]
 			if k.K == ref.Int {
 				infos[i].key = int(k.I.Int64())
+			} else if k.K == ref.Str {
+				infos[i].key = k.S
 			} else {
-				infos[i].key = k.Text()
+				infos[i].key = fmt.Sprintf("!kind%d:%s", k.K, k.Text())
 			}
 		}
 		if len(ppaths.A[i].A) == 1 {
@@ -547,8 +567,8 @@ func (p c16) Run(w *mon.Worker, idx int) mon.Result {
 			continue // the root of the value
 		}
 		// key == last(path)
-		if in.key == nil || !anyEq(in.key, in.path[len(in.path)-1]) {
-			violation = fmt.Sprintf("local: node %d reports key %v but path %s", i, in.key, ps)
+		if in.key == nil || !sameStep(in.key, in.path[len(in.path)-1]) {
+			violation = fmt.Sprintf("local: node %d reports key %#v but path %s", i, in.key, ps)
 			break
 		}
 		// (ii) compositional
